@@ -159,12 +159,11 @@ suffix, any whitespace around `=`, every non-empty secret over the value class o
 key does not start before the rendering, every suffix that does not continue the value and does not contain
 the key: `re.sub` of the `_FORMAT_PATTERNS_1` pattern of `K` replaces exactly the value by the mask.
 
-`_partial`: this is the substitution of the *one* pattern that is responsible for the rendering (full
-generality in key, spelling, secret, mask and surroundings).  Missing for the statement about
-`mask_password` as a whole: that the ten `_FORMAT_PATTERNS_2` patterns and the WILDCARD pattern of `K`, and
-the patterns of every other key present in the message, leave this message alone (they do not in the listed
-classes KF_C04_NESTED / KF_C04_FLAGVALUE; the correspondence and the search cover the composition). -/
-theorem mask_rendering_eq_bare_partial (K K' ds w1 w2 secret pre post mask : List Char)
+This is the statement about the *one* substitution that is responsible for the rendering, at full generality
+in key, spelling, secret, mask and surroundings (greedy-first lemma for the match, leftmost lemma for the
+prefix, no-key lemma for the suffix).  `mask_rendering_eq_bare_partial` below lifts it to `mask_password` as a
+whole. -/
+theorem sub_rendering_eq_bare (K K' ds w1 w2 secret pre post mask : List Char)
     (hK : keyMatch K K' = true) (hds : ∀ c ∈ ds, digitC.test c = true) (hw1 : ∀ c ∈ w1, wsC.test c = true)
     (hw2 : ∀ c ∈ w2, wsC.test c = true) (hsec : secret ≠ []) (hsecV : ∀ c ∈ secret, bareC.test c = true)
     (hpost : ∀ c, post.head? = some c → bareC.test c = false)
@@ -223,9 +222,9 @@ example :
 example : maskPassword "user=x pass PassWord12 =a^b$c.*ſ= and more".toList "***".toList
     = "user=x pass PassWord12 =*** and more".toList := by decide +kernel
 
-/-- masking an already masked `key=value` message changes nothing (one pattern; same restriction as
-    `mask_rendering_eq_bare_partial`), for every non-empty mask over the value class -/
-theorem mask_idempotent_on_masked_eq_bare_partial (K K' ds w1 w2 pre post mask : List Char)
+/-- the same substitution applied to an already masked `key=value` message changes nothing, for every
+    non-empty mask over the value class -/
+theorem sub_idempotent_on_masked_eq_bare (K K' ds w1 w2 pre post mask : List Char)
     (hK : keyMatch K K' = true) (hds : ∀ c ∈ ds, digitC.test c = true) (hw1 : ∀ c ∈ w1, wsC.test c = true)
     (hw2 : ∀ c ∈ w2, wsC.test c = true) (hmask : mask ≠ []) (hmaskV : ∀ c ∈ mask, bareC.test c = true)
     (hpost : ∀ c, post.head? = some c → bareC.test c = false)
@@ -234,6 +233,519 @@ theorem mask_idempotent_on_masked_eq_bare_partial (K K' ds w1 w2 pre post mask :
     (hpostK : occursCI K post = false) :
     subPat (tplEqBare.inst (keyItems K)) rep1 mask (pre ++ (K' ++ ds ++ w1 ++ ['='] ++ w2 ++ mask ++ post))
       = pre ++ (K' ++ ds ++ w1 ++ ['='] ++ w2 ++ mask ++ post) :=
-  mask_rendering_eq_bare_partial K K' ds w1 w2 mask pre post mask hK hds hw1 hw2 hmask hmaskV hpost hpre hpostK
+  sub_rendering_eq_bare K K' ds w1 w2 mask pre post mask hK hds hw1 hw2 hmask hmaskV hpost hpre hpostK
+
+/-! ### helper lemmas for the lift from one substitution to `mask_password` -/
+
+theorem lemma_instItems_mem (ki : List Item) (i : Item) : ∀ (ts : List TItem), TItem.it i ∈ ts → i ∈ instItems ki ts := by
+  intro ts
+  induction ts with
+  | nil => intro h; simp at h
+  | cons t ts ih =>
+    intro h
+    cases t with
+    | key =>
+      have : TItem.it i ∈ ts := by simpa using h
+      simp [instItems, ih this]
+    | it i' =>
+      rcases List.mem_cons.1 h with h | h
+      · cases h; simp [instItems]
+      · simp [instItems, ih h]
+
+/-- a template with a mandatory quote item in its first group cannot match a text without quotes -/
+theorem lemma_sub_noquote (t : Template) (qc : Cls) (rep : List RepTok) (ki : List Item) (mask M : List Char)
+    (hq : one qc ∈ t.g1) (hqc : ∀ c, quoteC.test c = false → qc.test c = false)
+    (hM : ∀ c ∈ M, quoteC.test c = false) : subPat (t.inst ki) rep mask M = M := by
+  unfold subPat
+  apply subAux_none
+  intro j _
+  apply matchRepl_none
+  apply matchPat_none_of_missing _ _ ⟨qc, 1, some 1⟩
+  · simp only [Template.inst]
+    exact List.mem_append_left _ (lemma_instItems_mem ki _ t.g1 hq)
+  · exact Nat.le_refl 1
+  · intro c hc
+    exact hqc c (hM c (List.mem_of_mem_drop hc))
+
+theorem lemma_Consumes_keyItems_inv (rest : List Item) : ∀ (K s s' : List Char),
+    Consumes (keyItems K ++ rest) s s' → keyPrefix K s = true ∧ Consumes rest (s.drop K.length) s' := by
+  intro K
+  induction K with
+  | nil => intro s s' h; exact ⟨rfl, by simpa [keyItems] using h⟩
+  | cons c K ih =>
+    intro s s' h
+    have hki : keyItems (c :: K) = ⟨keyCls c, 1, some 1⟩ :: keyItems K := by simp [keyItems]
+    rw [hki, List.cons_append] at h
+    obtain ⟨a, t, hs, ha, hr⟩ := h.one_inv
+    obtain ⟨h1, h2⟩ := ih t s' hr
+    subst hs
+    exact ⟨by simp [keyPrefix, ha, h1], by simpa using h2⟩
+
+/-- the key occurs (as `re` reads it) at exactly one place of `M`: after `n` characters -/
+def UniqueAt (K M : List Char) (n : Nat) : Prop :=
+  ∀ a b, M = a ++ b → keyPrefix K b = true → a.length = n
+
+theorem lemma_uniqueAt_of_drop (K M : List Char) (n : Nat)
+    (h : ∀ j, j ≤ M.length → keyPrefix K (M.drop j) = true → j = n) : UniqueAt K M n := by
+  intro a b hM hk
+  have := h a.length (by rw [hM]; simp) (by rw [hM]; simpa using hk)
+  exact this
+
+
+/-- `--KEY value` cannot match when the only occurrence of the key is not preceded by `-` -/
+theorem lemma_nomatch_dashdash (K M pre R : List Char) (hM : M = pre ++ R)
+    (hu : UniqueAt K M pre.length) (hlast : ∀ c, pre.getLast? = some c → dashC.test c = false)
+    (a b : List Char) (hab : M = a ++ b) : matchPat (tplDashDash.inst (keyItems K)) b = none := by
+  cases hm : matchPat (tplDashDash.inst (keyItems K)) b with
+  | none => rfl
+  | some bd =>
+    exfalso
+    obtain ⟨s1, s2, s3, c1, _, _, _⟩ := matchPat_some _ _ _ hm
+    simp only [tplDashDash, Template.inst, instItems, rep, star, plus] at c1
+    cases c1 with
+    | cons _ _ seg t _ hseg hlo hhi hrest =>
+      obtain ⟨hk, _⟩ := lemma_Consumes_keyItems_inv _ K t s1 hrest
+      have hlen : (a ++ seg).length = pre.length := hu (a ++ seg) t (by rw [hab]; simp) hk
+      have hpre : pre = a ++ seg := by
+        have h1 : pre ++ R = (a ++ seg) ++ t := by rw [← hM, hab]; simp
+        exact (List.append_inj_left h1 hlen.symm)
+      have h2 : seg.length = 2 := by have := hhi 2 rfl; simp at hlo; omega
+      match seg, h2 with
+      | [x, y], _ =>
+        have := hlast y (by rw [hpre]; simp)
+        rw [hseg y (by simp)] at this
+        cases this
+
+/-- `<KEY>…</KEY>` needs the key twice -/
+theorem lemma_nomatch_xml (K M : List Char) (n : Nat) (hu : UniqueAt K M n)
+    (a b : List Char) (hab : M = a ++ b) : matchPat (tplXml.inst (keyItems K)) b = none := by
+  cases hm : matchPat (tplXml.inst (keyItems K)) b with
+  | none => rfl
+  | some bd =>
+    exfalso
+    obtain ⟨s1, s2, s3, c1, c2, c3, _⟩ := matchPat_some _ _ _ hm
+    simp only [tplXml, Template.inst, instItems, one, star] at c1 c3
+    obtain ⟨x, b', hb, _, c1'⟩ := c1.one_inv
+    obtain ⟨hk1, c1''⟩ := lemma_Consumes_keyItems_inv _ K b' s1 c1'
+    obtain ⟨y, t1, ht1, _, c3'⟩ := c3.one_inv
+    obtain ⟨z, t2, ht2, _, c3''⟩ := c3'.one_inv
+    obtain ⟨hk2, _⟩ := lemma_Consumes_keyItems_inv _ K t2 s3 c3''
+    obtain ⟨u, hu1⟩ := c1''.suffix
+    obtain ⟨v, hv⟩ := c2.suffix
+    have e1 : (a ++ [x]).length = n := hu (a ++ [x]) b' (by rw [hab, hb]; simp) hk1
+    have hb' : b' = b'.take K.length ++ (u ++ (v ++ (y :: z :: t2))) := by
+      conv => lhs; rw [← List.take_append_drop K.length b', hu1, hv, ht1, ht2]
+    have e2 : (a ++ [x] ++ b'.take K.length ++ u ++ v ++ [y, z]).length = n :=
+      hu _ t2 (by rw [hab, hb]; (conv => lhs; rw [hb']); simp [List.append_assoc]) hk2
+    simp at e1 e2
+    omega
+
+theorem lemma_ws_not_dash (c : Char) (h : wsC.test c = true) : dashC.test c = false := by
+  simp only [wsC, dashC, cls, Cls.test, Gen.wsRanges, inRanges] at h ⊢
+  simp at h ⊢
+  omega
+
+theorem lemma_digit_not_dash (c : Char) (h : digitC.test c = true) : dashC.test c = false := by
+  simp only [digitC, dashC, cls, Cls.test, inRanges] at h ⊢
+  simp at h ⊢
+  omega
+
+theorem lemma_digit_not_ws (c : Char) (h : digitC.test c = true) : wsC.test c = false := by
+  simp only [wsC, digitC, cls, Cls.test, Gen.wsRanges, inRanges] at h ⊢
+  simp at h ⊢
+  omega
+
+/-- after `KEY digits ws*` comes `=`, not the `-` of `key --flag value` -/
+theorem lemma_nomatch_cmdflag_eq (K K' ds w1 X s1 : List Char) (hK : keyMatch K K' = true)
+    (hds : ∀ c ∈ ds, digitC.test c = true) (hw1 : ∀ c ∈ w1, wsC.test c = true) :
+    ¬ Consumes (instItems (keyItems K) tplCmdFlag.g1) (K' ++ (ds ++ (w1 ++ ('=' :: X)))) s1 := by
+  intro c1
+  simp only [tplCmdFlag, instItems, one, star, plus, opt] at c1
+  obtain ⟨_, c2⟩ := lemma_Consumes_keyItems_inv _ K _ s1 c1
+  rw [← keyMatch_length K K' hK, List.drop_left] at c2
+  obtain ⟨j, _, _, c3⟩ := c2.star_inv (by
+    apply head_append_of_all _ w1 _ (fun c hc => lemma_ws_not_digit c (hw1 c hc))
+    intro c hc; simp at hc; subst hc; decide)
+  cases hd : ds.drop j with
+  | nil =>
+    rw [hd, List.nil_append] at c3
+    obtain ⟨j2, _, _, c4⟩ := c3.star_inv (by intro c hc; simp at hc; subst hc; decide)
+    obtain ⟨x, t, hx, hxd, _⟩ := c4.one_inv
+    cases hw : w1.drop j2 with
+    | nil =>
+      rw [hw, List.nil_append] at hx
+      have hxe : x = '=' := (List.cons.inj hx).1.symm
+      subst hxe
+      revert hxd; decide
+    | cons y ys =>
+      rw [hw, List.cons_append] at hx
+      have hxe : x = y := (List.cons.inj hx).1.symm
+      subst hxe
+      have hmem : x ∈ w1.drop j2 := by rw [hw]; simp
+      rw [lemma_ws_not_dash _ (hw1 _ (List.mem_of_mem_drop hmem))] at hxd; cases hxd
+  | cons d ds' =>
+    have hdm' : d ∈ ds.drop j := by rw [hd]; simp
+    have hdm : d ∈ ds := List.mem_of_mem_drop hdm'
+    rw [hd] at c3
+    obtain ⟨j2, _, hj2, c4⟩ := Consumes.star_inv (r := []) (t := d :: ds' ++ (w1 ++ '=' :: X)) c3 (by
+      intro c hc; simp at hc; subst hc; exact lemma_digit_not_ws _ (hds _ hdm))
+    have : j2 = 0 := by simpa using hj2
+    subst this
+    obtain ⟨x, t, hx, hxd, _⟩ := c4.one_inv
+    simp at hx
+    rw [← hx.1, lemma_digit_not_dash _ (hds _ hdm)] at hxd; cases hxd
+
+
+theorem lemma_ws_not_quote (c : Char) (h : wsC.test c = true) : quoteC.test c = false := by
+  simp only [wsC, quoteC, cls, Cls.test, Gen.wsRanges, inRanges] at h ⊢
+  simp at h ⊢
+  omega
+
+theorem lemma_digit_not_quote (c : Char) (h : digitC.test c = true) : quoteC.test c = false := by
+  simp only [digitC, quoteC, cls, Cls.test, inRanges] at h ⊢
+  simp at h ⊢
+  omega
+
+theorem lemma_bare_not_quote (c : Char) (h : bareC.test c = true) : quoteC.test c = false := by
+  simp only [bareC, quoteC, ncls, cls, Cls.test, lemma_inRanges_append] at h ⊢
+  simp at h ⊢
+  simp [inRanges] at h ⊢
+  omega
+
+theorem lemma_noquote_dq (c : Char) (h : quoteC.test c = false) : dqC.test c = false := by
+  simp only [dqC, quoteC, cls, Cls.test, inRanges] at h ⊢
+  simp at h ⊢
+  omega
+
+theorem lemma_noquote_sq (c : Char) (h : quoteC.test c = false) : sqC.test c = false := by
+  simp only [sqC, quoteC, cls, Cls.test, inRanges] at h ⊢
+  simp at h ⊢
+  omega
+
+theorem lemma_occursCI_exists (K : List Char) : ∀ (s : List Char), occursCI K s = true →
+    ∃ j, j ≤ s.length ∧ keyPrefix K (s.drop j) = true := by
+  intro s
+  induction s with
+  | nil => intro h; exact ⟨0, by simp, by simpa [occursCI] using h⟩
+  | cons c s ih =>
+    intro h
+    simp only [occursCI, Bool.or_eq_true] at h
+    rcases h with h | h
+    · exact ⟨0, by simp, by simpa using h⟩
+    · obtain ⟨j, hj, hk⟩ := ih h
+      exact ⟨j + 1, by simp; omega, by simpa using hk⟩
+
+/-- the whole `if key in message.lower():` body on a bare `key=value` message: only the
+    `_FORMAT_PATTERNS_1` pattern fires -/
+theorem lemma_applyKey_eq_bare (K K' ds w1 w2 secret pre post mask : List Char)
+    (hK : keyMatch K K' = true) (hds : ∀ c ∈ ds, digitC.test c = true) (hw1 : ∀ c ∈ w1, wsC.test c = true)
+    (hw2 : ∀ c ∈ w2, wsC.test c = true) (hsec : secret ≠ []) (hsecV : ∀ c ∈ secret, bareC.test c = true)
+    (hpost : ∀ c, post.head? = some c → bareC.test c = false)
+    (hKq : ∀ c ∈ K', quoteC.test c = false)
+    (hpreq : ∀ c ∈ pre, quoteC.test c = false) (hpostq : ∀ c ∈ post, quoteC.test c = false)
+    (hmaskq : ∀ c ∈ mask, quoteC.test c = false)
+    (hlast : ∀ c, pre.getLast? = some c → dashC.test c = false)
+    (hu : ∀ j, j ≤ (pre ++ (K' ++ ds ++ w1 ++ ['='] ++ w2 ++ secret ++ post)).length →
+      keyPrefix K ((pre ++ (K' ++ ds ++ w1 ++ ['='] ++ w2 ++ secret ++ post)).drop j) = true → j = pre.length) :
+    applyKey K mask (pre ++ (K' ++ ds ++ w1 ++ ['='] ++ w2 ++ secret ++ post))
+      = pre ++ (K' ++ ds ++ w1 ++ ['='] ++ w2 ++ mask ++ post) := by
+  have hU := lemma_uniqueAt_of_drop K _ _ hu
+  -- no quote anywhere in the message, nor in the masked message
+  have hMq : ∀ c ∈ pre ++ (K' ++ ds ++ w1 ++ ['='] ++ w2 ++ secret ++ post), quoteC.test c = false := by
+    intro c hc
+    simp only [List.mem_append, List.mem_cons, List.not_mem_nil, or_false] at hc
+    rcases hc with h | ((((((h | h) | h) | h) | h) | h) | h)
+    · exact hpreq c h
+    · exact hKq c h
+    · exact lemma_digit_not_quote c (hds c h)
+    · exact lemma_ws_not_quote c (hw1 c h)
+    · subst h; decide
+    · exact lemma_ws_not_quote c (hw2 c h)
+    · exact lemma_bare_not_quote c (hsecV c h)
+    · exact hpostq c h
+  have hM'q : ∀ c ∈ pre ++ (K' ++ ds ++ w1 ++ ['='] ++ w2 ++ mask ++ post), quoteC.test c = false := by
+    intro c hc
+    simp only [List.mem_append, List.mem_cons, List.not_mem_nil, or_false] at hc
+    rcases hc with h | ((((((h | h) | h) | h) | h) | h) | h)
+    · exact hpreq c h
+    · exact hKq c h
+    · exact lemma_digit_not_quote c (hds c h)
+    · exact lemma_ws_not_quote c (hw1 c h)
+    · subst h; decide
+    · exact lemma_ws_not_quote c (hw2 c h)
+    · exact hmaskq c h
+    · exact hpostq c h
+  -- positional patterns
+  have hdash : subPat (tplDashDash.inst (keyItems K)) rep2 mask
+      (pre ++ (K' ++ ds ++ w1 ++ ['='] ++ w2 ++ secret ++ post))
+      = pre ++ (K' ++ ds ++ w1 ++ ['='] ++ w2 ++ secret ++ post) := by
+    unfold subPat
+    apply subAux_none
+    intro j _
+    apply matchRepl_none
+    exact lemma_nomatch_dashdash K _ pre _ rfl hU hlast _ _ (List.take_append_drop j _).symm
+  have hxml : subPat (tplXml.inst (keyItems K)) rep2 mask
+      (pre ++ (K' ++ ds ++ w1 ++ ['='] ++ w2 ++ secret ++ post))
+      = pre ++ (K' ++ ds ++ w1 ++ ['='] ++ w2 ++ secret ++ post) := by
+    unfold subPat
+    apply subAux_none
+    intro j _
+    apply matchRepl_none
+    exact lemma_nomatch_xml K _ _ hU _ _ (List.take_append_drop j _).symm
+  have hflag : subPat (tplCmdFlag.inst (keyItems K)) rep2 mask
+      (pre ++ (K' ++ ds ++ w1 ++ ['='] ++ w2 ++ secret ++ post))
+      = pre ++ (K' ++ ds ++ w1 ++ ['='] ++ w2 ++ secret ++ post) := by
+    unfold subPat
+    apply subAux_none
+    intro j hj
+    apply matchRepl_none
+    cases hm : matchPat (tplCmdFlag.inst (keyItems K)) (List.drop j (pre ++ (K' ++ ds ++ w1 ++ ['='] ++ w2 ++ secret ++ post))) with
+    | none => rfl
+    | some bd =>
+      exfalso
+      obtain ⟨s1, s2, s3, c1, _, _, _⟩ := matchPat_some _ _ _ hm
+      have c1' := c1
+      simp only [Template.inst] at c1
+      have hkp : keyPrefix K (List.drop j (pre ++ (K' ++ ds ++ w1 ++ ['='] ++ w2 ++ secret ++ post))) = true := by
+        have c1'' := c1
+        simp only [tplCmdFlag, instItems] at c1''
+        exact (lemma_Consumes_keyItems_inv _ K _ s1 c1'').1
+      have hjp := hu j hj hkp
+      subst hjp
+      rw [List.drop_left] at c1
+      have hflat : K' ++ ds ++ w1 ++ ['='] ++ w2 ++ secret ++ post
+          = K' ++ (ds ++ (w1 ++ ('=' :: (w2 ++ secret ++ post)))) := by simp
+      rw [hflat] at c1
+      exact lemma_nomatch_cmdflag_eq K K' ds w1 _ s1 hK hds hw1 c1
+  -- the bare pattern
+  have hbare := sub_rendering_eq_bare K K' ds w1 w2 secret pre post mask hK hds hw1 hw2 hsec hsecV hpost
+    (by
+      intro j hj
+      cases hk : keyPrefix K (List.drop j pre ++ (K' ++ ds ++ w1 ++ ['='] ++ w2 ++ secret ++ post)) with
+      | false => rfl
+      | true =>
+        exfalso
+        have := hu j (by simp; omega) (by rw [List.drop_append_of_le_length (by omega)]; exact hk)
+        omega)
+    (by
+      cases ho : occursCI K post with
+      | false => rfl
+      | true =>
+        exfalso
+        obtain ⟨j, hj, hk⟩ := lemma_occursCI_exists K post ho
+        have hd : List.drop (pre.length + ((K' ++ ds ++ w1 ++ ['='] ++ w2 ++ secret).length + j))
+            (pre ++ (K' ++ ds ++ w1 ++ ['='] ++ w2 ++ secret ++ post)) = post.drop j := by
+          have e : pre ++ (K' ++ ds ++ w1 ++ ['='] ++ w2 ++ secret ++ post)
+              = pre ++ ((K' ++ ds ++ w1 ++ ['='] ++ w2 ++ secret) ++ post) := by simp
+          rw [e, ← List.drop_drop, List.drop_left, ← List.drop_drop, List.drop_left]
+        have := hu (pre.length + ((K' ++ ds ++ w1 ++ ['='] ++ w2 ++ secret).length + j))
+          (by simp only [List.length_append, List.length_cons, List.length_nil] at hj ⊢; omega)
+          (by rw [hd]; exact hk)
+        simp only [List.length_append, List.length_cons, List.length_nil] at this
+        omega)
+  unfold applyKey
+  rw [templates_as_reviewed.1, templates_as_reviewed.2.1, templates_as_reviewed.2.2.1]
+  simp only [subAll, List.foldl]
+  rw [lemma_sub_noquote tplEqQuoted quoteC _ _ _ _ (by simp [tplEqQuoted]) (fun _ h => h) hMq,
+      lemma_sub_noquote tplEqDq dqC _ _ _ _ (by simp [tplEqDq]) lemma_noquote_dq hMq,
+      lemma_sub_noquote tplEqSq sqC _ _ _ _ (by simp [tplEqSq]) lemma_noquote_sq hMq,
+      lemma_sub_noquote tplKeyQuoted quoteC _ _ _ _ (by simp [tplKeyQuoted]) (fun _ h => h) hMq,
+      hdash, hxml,
+      lemma_sub_noquote tplColonQuoted quoteC _ _ _ _ (by simp [tplColonQuoted]) (fun _ h => h) hMq,
+      lemma_sub_noquote tplColonPrefixed quoteC _ _ _ _ (by simp [tplColonPrefixed]) (fun _ h => h) hMq,
+      lemma_sub_noquote tplCmdList quoteC _ _ _ _ (by simp [tplCmdList]) (fun _ h => h) hMq,
+      hflag, hbare,
+      lemma_sub_noquote tplWildcard quoteC _ _ _ _ (by simp [tplWildcard]) (fun _ h => h) hM'q]
+
+
+/-! ### from one key to the loop over all keys -/
+
+theorem lemma_pyLower_append : ∀ (a b : List Char), pyLower (a ++ b) = pyLower a ++ pyLower b := by
+  intro a
+  induction a with
+  | nil => intro b; rfl
+  | cons c a ih => intro b; simp [pyLower, ih]
+
+theorem lemma_isInfix_append_left (K : List Char) : ∀ (a s : List Char), isInfix K s = true → isInfix K (a ++ s) = true := by
+  intro a
+  induction a with
+  | nil => intro s h; exact h
+  | cons c a ih => intro s h; simp [isInfix, ih s h]
+
+theorem lemma_isInfix_self_append (K B : List Char) : isInfix K (K ++ B) = true := by
+  have hp : K.isPrefixOf (K ++ B) = true := by
+    rw [List.isPrefixOf_iff_prefix]; exact List.prefix_append K B
+  cases h : K ++ B with
+  | nil =>
+    have : K = [] := by
+      cases K with
+      | nil => rfl
+      | cons x xs => simp at h
+    subst this; simp [isInfix]
+  | cons c s => rw [h] at hp; simp [isInfix, hp]
+
+theorem lemma_keytest (K K' pre rest : List Char) (hlow : pyLower K' = K) :
+    isInfix K (pyLower (pre ++ (K' ++ rest))) = true := by
+  rw [lemma_pyLower_append, lemma_pyLower_append, hlow]
+  exact lemma_isInfix_append_left K _ _ (lemma_isInfix_self_append K _)
+
+theorem lemma_fold_others (mask M : List Char) : ∀ (keys : List (List Char)),
+    (∀ k ∈ keys, maskStep mask M k = M) → keys.foldl (maskStep mask) M = M := by
+  intro keys
+  induction keys with
+  | nil => intro _; rfl
+  | cons k keys ih =>
+    intro h
+    simp only [List.foldl_cons, h k (by simp)]
+    exact ih (fun k' hk' => h k' (by simp [hk']))
+
+/-- exactly one key of the list acts on the message -/
+theorem lemma_fold_single (mask M M' K : List Char) : ∀ (keys : List (List Char)),
+    keys.Nodup → K ∈ keys → maskStep mask M K = M' →
+    (∀ k ∈ keys, k ≠ K → maskStep mask M k = M ∧ maskStep mask M' k = M') →
+    keys.foldl (maskStep mask) M = M' := by
+  intro keys
+  induction keys with
+  | nil => intro _ h; simp at h
+  | cons k keys ih =>
+    intro hnd hmem hK hoth
+    simp only [List.nodup_cons] at hnd
+    simp only [List.foldl_cons]
+    by_cases hk : k = K
+    · subst hk
+      rw [hK]
+      apply lemma_fold_others
+      intro k' hk'
+      exact (hoth k' (by simp [hk']) (fun e => hnd.1 (e ▸ hk'))).2
+    · rw [(hoth k (by simp) hk).1]
+      have hmem' : K ∈ keys := by
+        rcases List.mem_cons.1 hmem with h | h
+        · exact absurd h.symm hk
+        · exact h
+      exact ih hnd.2 hmem' hK (fun k' hk' hne => hoth k' (by simp [hk']) hne)
+
+/-- no character class of a sanitize-key character accepts a quote -/
+def keyNoQuote (k : Char) : Bool :=
+  !(keyCls k).neg && !inRanges 34 (keyCls k).ranges && !inRanges 39 (keyCls k).ranges
+
+theorem lemma_keys_no_quote : ∀ K ∈ Gen.sanitizeKeys, ∀ k ∈ K, keyNoQuote k = true := by decide
+
+theorem lemma_keyMatch_no_quote : ∀ (K K' : List Char), (∀ k ∈ K, keyNoQuote k = true) → keyMatch K K' = true →
+    ∀ c ∈ K', quoteC.test c = false := by
+  intro K
+  induction K with
+  | nil => intro K' _ h c hc; cases K' <;> simp_all [keyMatch]
+  | cons k K ih =>
+    intro K' hq h c hc
+    cases K' with
+    | nil => simp at hc
+    | cons x xs =>
+      simp only [keyMatch, Bool.and_eq_true] at h
+      rcases List.mem_cons.1 hc with hc | hc
+      · subst hc
+        have hk := hq k (by simp)
+        simp only [keyNoQuote, Bool.and_eq_true, Bool.not_eq_true'] at hk
+        have ht := h.1
+        simp only [Cls.test, hk.1.1] at ht
+        cases hq' : quoteC.test c with
+        | false => rfl
+        | true =>
+          exfalso
+          simp only [quoteC, cls, Cls.test, inRanges] at hq'
+          simp at hq' ht
+          rcases hq' with e | e
+          · have : c.toNat = 34 := by omega
+            rw [this, hk.1.2] at ht; cases ht
+          · have : c.toNat = 39 := by omega
+            rw [this, hk.2] at ht; cases ht
+      · exact ih xs (fun k' hk' => hq k' (by simp [hk'])) h.2 c hc
+
+theorem lemma_keys_nodup : Gen.sanitizeKeys.Nodup := by decide
+
+
+/-! ### rendering `key=value` (bare): `mask_password` as a whole -/
+
+/-- **`mask_password` on a bare `key = value` rendering.**  For every key `K` of the generated list, every
+spelling `K'` of it whose lower-casing is `K` (any mix of letter cases, U+212A for `k`) with any digit suffix,
+any whitespace around `=`, every non-empty secret over the value class of the generated template
+(`[^\s'"]`: regex metacharacters, `=`, `^`, `-`, `<`, non-ASCII … included), every mask without quote
+characters, and neutral surroundings: `mask_password` returns the message with exactly the value replaced
+by the mask.  All twelve patterns of `K` and the loop over all 35 keys are accounted for.
+
+`_partial` — what is missing with respect to the property:
+* *single key*: no other sanitize key occurs in the lower-cased message, before or after masking (so keys
+  that contain another key — `admin_password`, `auth_password`, `chappassword` ⊃ `password`, `auth_token` ⊃
+  `token`, `secret_uuid`, `chapsecret` ⊃ `secret`, `admin_password` ⊃ `admin_pass` — and messages with several
+  secrets are not covered by this theorem);
+* the key (as the patterns read it) occurs only at the rendering: in particular not inside the secret
+  (`hu`; this is the exclusion of the listed class KF_C04_NESTED);
+* neutral surroundings are stronger than the patterns need: no quote character in prefix, suffix or mask, the
+  prefix does not end with `-`, the suffix does not continue the value. -/
+theorem mask_rendering_eq_bare_partial (K K' ds w1 w2 secret pre post mask : List Char)
+    (hKmem : K ∈ Gen.sanitizeKeys) (hK : keyMatch K K' = true) (hlow : pyLower K' = K)
+    (hds : ∀ c ∈ ds, digitC.test c = true) (hw1 : ∀ c ∈ w1, wsC.test c = true)
+    (hw2 : ∀ c ∈ w2, wsC.test c = true) (hsec : secret ≠ []) (hsecV : ∀ c ∈ secret, bareC.test c = true)
+    (hpost : ∀ c, post.head? = some c → bareC.test c = false)
+    (hpreq : ∀ c ∈ pre, quoteC.test c = false) (hpostq : ∀ c ∈ post, quoteC.test c = false)
+    (hmaskq : ∀ c ∈ mask, quoteC.test c = false)
+    (hlast : ∀ c, pre.getLast? = some c → dashC.test c = false)
+    (hu : ∀ j, j ≤ (pre ++ (K' ++ ds ++ w1 ++ ['='] ++ w2 ++ secret ++ post)).length →
+      keyPrefix K ((pre ++ (K' ++ ds ++ w1 ++ ['='] ++ w2 ++ secret ++ post)).drop j) = true → j = pre.length)
+    (hother : ∀ k ∈ Gen.sanitizeKeys, k ≠ K →
+      isInfix k (pyLower (pre ++ (K' ++ ds ++ w1 ++ ['='] ++ w2 ++ secret ++ post))) = false ∧
+      isInfix k (pyLower (pre ++ (K' ++ ds ++ w1 ++ ['='] ++ w2 ++ mask ++ post))) = false) :
+    maskPassword (pre ++ (K' ++ ds ++ w1 ++ ['='] ++ w2 ++ secret ++ post)) mask
+      = pre ++ (K' ++ ds ++ w1 ++ ['='] ++ w2 ++ mask ++ post) := by
+  unfold maskPassword maskWith
+  apply lemma_fold_single mask _ _ K Gen.sanitizeKeys lemma_keys_nodup hKmem
+  · have hkt : isInfix K (pyLower (pre ++ (K' ++ ds ++ w1 ++ ['='] ++ w2 ++ secret ++ post))) = true := by
+      have e : K' ++ ds ++ w1 ++ ['='] ++ w2 ++ secret ++ post
+          = K' ++ (ds ++ w1 ++ ['='] ++ w2 ++ secret ++ post) := by simp
+      rw [e]; exact lemma_keytest K K' pre _ hlow
+    simp only [maskStep, hkt, if_true]
+    exact lemma_applyKey_eq_bare K K' ds w1 w2 secret pre post mask hK hds hw1 hw2 hsec hsecV hpost
+      (lemma_keyMatch_no_quote K K' (lemma_keys_no_quote K hKmem) hK) hpreq hpostq hmaskq hlast hu
+  · intro k hk hne
+    obtain ⟨h1, h2⟩ := hother k hk hne
+    exact ⟨by simp only [maskStep, h1, Bool.false_eq_true, if_false],
+           by simp only [maskStep, h2, Bool.false_eq_true, if_false]⟩
+
+/-- non-vacuity of `mask_rendering_eq_bare_partial`: every hypothesis holds of a concrete message (mixed-case key
+    with digit suffix, secret of regex metacharacters with `=`, `^`, `<`, `-` and a non-ASCII case-fold character) -/
+example :
+    let K := "password".toList; let K' := "PassWord".toList; let ds := "12".toList
+    let w1 := " ".toList; let w2 : List Char := []; let secret := "a^b$c.*ſ=<-x".toList
+    let pre := "user=x pass ".toList; let post := " and more".toList; let mask := "***".toList
+    K ∈ Gen.sanitizeKeys ∧ keyMatch K K' = true ∧ pyLower K' = K ∧
+    (∀ c ∈ ds, digitC.test c = true) ∧ (∀ c ∈ w1, wsC.test c = true) ∧
+    (∀ c ∈ w2, wsC.test c = true) ∧ secret ≠ [] ∧ (∀ c ∈ secret, bareC.test c = true) ∧
+    (∀ c, post.head? = some c → bareC.test c = false) ∧
+    (∀ c ∈ pre, quoteC.test c = false) ∧ (∀ c ∈ post, quoteC.test c = false) ∧ (∀ c ∈ mask, quoteC.test c = false) ∧
+    (∀ c, pre.getLast? = some c → dashC.test c = false) ∧
+    (∀ j, j ≤ (pre ++ (K' ++ ds ++ w1 ++ ['='] ++ w2 ++ secret ++ post)).length →
+      keyPrefix K ((pre ++ (K' ++ ds ++ w1 ++ ['='] ++ w2 ++ secret ++ post)).drop j) = true → j = pre.length) ∧
+    (∀ k ∈ Gen.sanitizeKeys, k ≠ K →
+      isInfix k (pyLower (pre ++ (K' ++ ds ++ w1 ++ ['='] ++ w2 ++ secret ++ post))) = false ∧
+      isInfix k (pyLower (pre ++ (K' ++ ds ++ w1 ++ ['='] ++ w2 ++ mask ++ post))) = false) := by
+  decide +kernel
+
+/-- masking an already masked bare `key=value` message changes nothing (`mask_password` as a whole; same
+    restrictions as `mask_rendering_eq_bare_partial`, mask non-empty and over the value class) -/
+theorem mask_idempotent_on_masked_eq_bare_partial (K K' ds w1 w2 pre post mask : List Char)
+    (hKmem : K ∈ Gen.sanitizeKeys) (hK : keyMatch K K' = true) (hlow : pyLower K' = K)
+    (hds : ∀ c ∈ ds, digitC.test c = true) (hw1 : ∀ c ∈ w1, wsC.test c = true)
+    (hw2 : ∀ c ∈ w2, wsC.test c = true) (hmask : mask ≠ []) (hmaskV : ∀ c ∈ mask, bareC.test c = true)
+    (hpost : ∀ c, post.head? = some c → bareC.test c = false)
+    (hpreq : ∀ c ∈ pre, quoteC.test c = false) (hpostq : ∀ c ∈ post, quoteC.test c = false)
+    (hlast : ∀ c, pre.getLast? = some c → dashC.test c = false)
+    (hu : ∀ j, j ≤ (pre ++ (K' ++ ds ++ w1 ++ ['='] ++ w2 ++ mask ++ post)).length →
+      keyPrefix K ((pre ++ (K' ++ ds ++ w1 ++ ['='] ++ w2 ++ mask ++ post)).drop j) = true → j = pre.length)
+    (hother : ∀ k ∈ Gen.sanitizeKeys, k ≠ K →
+      isInfix k (pyLower (pre ++ (K' ++ ds ++ w1 ++ ['='] ++ w2 ++ mask ++ post))) = false) :
+    maskPassword (pre ++ (K' ++ ds ++ w1 ++ ['='] ++ w2 ++ mask ++ post)) mask
+      = pre ++ (K' ++ ds ++ w1 ++ ['='] ++ w2 ++ mask ++ post) :=
+  mask_rendering_eq_bare_partial K K' ds w1 w2 mask pre post mask hKmem hK hlow hds hw1 hw2 hmask hmaskV hpost
+    hpreq hpostq (fun c hc => lemma_bare_not_quote c (hmaskV c hc)) hlast hu
+    (fun k hk hne => ⟨hother k hk hne, hother k hk hne⟩)
 
 end Oslo.Mask
